@@ -162,3 +162,13 @@ def show(n, ren=None, keep_adjust=False, skip_debug=True):
 
     import alpha
     return alpha.S(go(n))
+
+
+def show_fn(fn, **kw):
+    """Whole function: parameters are listed as binders so that renaming a parameter is a consistent renaming."""
+    ps = []
+    for p in fn.thir["params"]:
+        pt = p.get("pat")
+        ps.append(pat_str(pt) if pt else "_")
+    import alpha
+    return alpha.S("fn(" + ", ".join(ps) + ") " + str(show(fn.body, **kw)))
